@@ -10,6 +10,7 @@ use crate::gen::{self, Gen, GenCfg, Route, M};
 use crate::json::J;
 use crate::pos::tree_of;
 use crate::rng::Rng;
+use crate::spec::Item;
 use crate::trap;
 
 fn permutations(n: usize) -> Vec<Vec<usize>> {
@@ -124,6 +125,51 @@ pub fn run(ctx: &mut Ctx) {
     for case in ctx.cases(total) {
         ctx.begin_case(case);
         let mut rng = ctx.rng(case);
+        // wide receivers (more assertions than any small fixed table or linear-scan threshold)
+        if case % 50 == 7 {
+            let w = *rng.pick(&[63usize, 64, 65, 66, 100, 128, 129, 255, 256, 257, 300]);
+            ctx.eval();
+            ctx.count("wide_receivers");
+            let subj = Envelope::new(format!("wide-{}", case));
+            let items: Vec<Envelope> = (0..w).map(|i| Envelope::new_assertion(i as u64, format!("v{}", (i * 7 + case as usize) % 11))).collect();
+            let mut order: Vec<usize> = (0..w).collect();
+            rng.shuffle(&mut order);
+            let r = trap::guard(|| {
+                let mut a = subj.clone();
+                for &i in &order {
+                    a = add_variant(&a, &items[i], &mut rng.fork());
+                }
+                let rev: Vec<Envelope> = order.iter().rev().map(|&i| items[i].clone()).collect();
+                let b = subj.add_assertion_envelopes(&rev).unwrap();
+                // re-adding present assertions through every entry point is the identity
+                let mut c = a.clone();
+                for _ in 0..12 {
+                    let x = &items[rng.below(w)];
+                    c = add_variant(&c, x, &mut rng.fork());
+                }
+                let c2 = a.add_assertions(&items[..w.min(70)]);
+                // remove one and add it back
+                let x = &items[rng.below(w)];
+                let d = a.remove_assertion(x.clone()).add_assertion_envelope(x.clone()).unwrap();
+                (a, b, c, c2, d)
+            });
+            match r {
+                Ok((a, b, c, c2, d)) => {
+                    let ab = env_bytes(&a);
+                    let model = M::Node(Box::new(M::Leaf(Item::Text(format!("wide-{}", case)))), (0..w).map(|i| M::Assertion(Box::new(M::Leaf(Item::UInt(i as u64))), Box::new(M::Leaf(Item::Text(format!("v{}", (i * 7 + case as usize) % 11)))))).collect());
+                    if ab != model.bytes() || env_bytes(&b) != ab {
+                        ctx.violation("wide/order-dependent-bytes", &format!("a node of {} assertions depends on the insertion order / differs from the model", w), J::i(w as u64));
+                    }
+                    if env_bytes(&c) != ab || env_bytes(&c2) != ab {
+                        ctx.violation("wide/repeat-add-changes", &format!("re-adding present assertions changed a node of {} assertions", w), J::i(w as u64));
+                    }
+                    if env_bytes(&d) != ab {
+                        ctx.violation("wide/remove-does-not-restore", &format!("remove + add on a node of {} assertions does not restore it", w), J::i(w as u64));
+                    }
+                }
+                Err(p) => ctx.violation(&format!("wide/panic/{}", p.signature()), &format!("{:?}", p), J::i(w as u64)),
+            }
+        }
         // subject + k distinct assertion elements
         let kmax = if case % 10 == 0 { 5 } else { 4 };
         let kmax = if ctx.tier == crate::ctx::Tier::Thorough { 5 } else { kmax };
@@ -150,6 +196,17 @@ pub fn run(ctx: &mut Ctx) {
         } else {
             (subject_m, asr_m)
         };
+        // now and then one element is an assertion decorated twice without wrapping (only decoding builds it)
+        let (subject_m, mut asr_m) = (subject_m, asr_m);
+        if case % 9 == 4 {
+            ctx.count("twice_decorated_assertion_elements");
+            let bare = M::Assertion(Box::new(M::Leaf(Item::Text("knows".into()))), Box::new(M::Leaf(Item::UInt(case))));
+            let once = M::Node(Box::new(bare), vec![M::Assertion(Box::new(M::Known(rng.below(20) as u64)), Box::new(M::Leaf(Item::UInt(1))))]);
+            let twice = M::Node(Box::new(once), vec![M::Assertion(Box::new(M::Leaf(Item::Text("note".into()))), Box::new(M::Leaf(Item::UInt(2))))]);
+            let at = rng.below(asr_m.len() + 1);
+            asr_m.insert(at, twice);
+            asr_m.truncate(kmax.max(2));
+        }
         // distinct assertions only: one digest must not appear in two different forms (plain and
         // obscured), otherwise "the same set" is ill-defined - whichever form is added first stays
         let asr_m: Vec<M> = {
@@ -163,7 +220,7 @@ pub fn run(ctx: &mut Ctx) {
         let asr: Vec<Envelope> = asr_m
             .iter()
             .map(|a| {
-                let e = gen::build(a, Route::Plain, &mut rng);
+                let e = gen::build(a, if a.has_node_subject_node() { Route::Decode } else { Route::Plain }, &mut rng);
                 // an assertion element may itself be obscured (same digest, legitimate assertion element)
                 match rng.below(10) {
                     0 => {
